@@ -270,6 +270,33 @@ func (w *World) rulesNomenclature(out *[]Obligation) {
 			return true
 		})
 	}
+	// accessors: methods of the object whose body is `return <pure selection of
+	// receiver bits>`. Their reads are accounted for where they are called.
+	accessor := map[*ast.FuncDecl][]BitPos{}
+	for _, f := range fns {
+		if f == fd || f.Recv == nil || len(f.Body.List) != 1 {
+			continue
+		}
+		rs, ok := f.Body.List[0].(*ast.ReturnStmt)
+		if !ok || len(rs.Results) != 1 {
+			continue
+		}
+		if tv, ok := p.Info.Types[rs.Results[0]]; !ok || !isUint8(tv.Type) {
+			continue
+		}
+		if bs, ok := p.orBits(rs.Results[0]); ok {
+			accessor[f] = bs
+		}
+	}
+	if len(accessor) > 0 {
+		var keep []*ast.FuncDecl
+		for _, f := range fns {
+			if _, isAcc := accessor[f]; !isAcc {
+				keep = append(keep, f)
+			}
+		}
+		fns = keep
+	}
 	// integer locals defined once as an OR of bit selections (t := c.u2 & 0x0C):
 	// a later `t != 0` tests those bits
 	bitLocals := map[types.Object][]BitPos{}
@@ -437,6 +464,63 @@ func (w *World) rulesNomenclature(out *[]Obligation) {
 				}
 			}
 		}
+	}
+	// calls of accessors: inside a "some bit set" predicate, or enumerated fully
+	for _, f := range fns {
+		var stack []ast.Node
+		ast.Inspect(f.Body, func(n ast.Node) bool {
+			if n == nil {
+				stack = stack[:len(stack)-1]
+				return false
+			}
+			stack = append(stack, n)
+			call, ok := n.(*ast.CallExpr)
+			if !ok {
+				return true
+			}
+			fn := calleeOf(p.Info, call)
+			if fn == nil {
+				return true
+			}
+			bs, isAcc := accessor[p.FuncObj[fn]]
+			if !isAcc {
+				return true
+			}
+			nReaders++
+			inLocalDef := false
+			for def := range localDef {
+				if def.Pos() <= call.Pos() && call.End() <= def.End() {
+					inLocalDef = true
+				}
+			}
+			if inLocalDef {
+				return true
+			}
+			var pred ast.Expr
+			for i := len(stack) - 1; i >= 0; i-- {
+				e, ok := stack[i].(ast.Expr)
+				if !ok {
+					break
+				}
+				if tv, ok := p.Info.Types[e]; ok {
+					if b, ok := tv.Type.Underlying().(*types.Basic); ok && b.Info()&types.IsBoolean != 0 {
+						pred = e
+					}
+				}
+			}
+			if pred != nil {
+				if bits, ok := p.anyBits(pred, bitLocals); ok {
+					handlePred(pred, bits)
+					return true
+				}
+			}
+			whole, partial, _ := p.metricsOfBits(bs)
+			for _, m := range append(whole, partial...) {
+				involved[m] = true
+				fullEnum[m] = true
+			}
+			return true
+		})
 	}
 	add(true, "R16.reads", "Nomenclature.reads", fd, fmt.Sprintf("%d byte reads in %d function(s) reachable from Nomenclature classified; %d metrics involved, %d of them enumerated over all their values", nReaders, len(fns), len(involved), len(fullEnum)))
 	// oracle sets
@@ -649,7 +733,7 @@ func (w *World) rulesLen(out *[]Obligation) {
 			add(false, "R17.len", "Vector.cap", em.Fn, "Vector does not size its buffer with a sizing function: undecided")
 			continue
 		}
-		lenFn, _ := identObj(p.Info, em.LenCall.Fun).(*types.Func)
+		lenFn := calleeOf(p.Info, em.LenCall)
 		lfd := p.FuncObj[lenFn]
 		if lfd == nil {
 			add(false, "R17.len", "Vector.cap", em.LenCall, "sizing function not found")
@@ -852,18 +936,28 @@ func (w *World) rulesLen(out *[]Obligation) {
 		// precede the buffer's make are evaluated and the capacity argument read
 		// (covers a sizing function that takes something derived from the object)
 		var preMake []ast.Stmt
+		var capExpr ast.Expr
 		if em.Fn != nil && em.Fn.Body != nil && em.MakeCall != nil && len(em.MakeCall.Args) == 3 {
+			capExpr = em.MakeCall.Args[2]
+			if em.CapExpr != nil {
+				capExpr = em.CapExpr
+			}
+			located := false
 			for _, st := range em.Fn.Body.List {
-				if nodeContains(st, em.MakeCall) {
+				if nodeContains(st, capExpr) {
+					located = true
 					break
 				}
 				preMake = append(preMake, st)
+			}
+			if !located {
+				preMake, capExpr = nil, nil
 			}
 		}
 		Fdirect := F
 		F = func(codes map[string]int) (int64, error) {
 			v, err := Fdirect(codes)
-			if err == nil || preMake == nil {
+			if err == nil || capExpr == nil {
 				return v, err
 			}
 			bytes, err2 := p.bytesFromCodes(codes)
@@ -880,7 +974,7 @@ func (w *World) rulesLen(out *[]Obligation) {
 					return 0, err
 				}
 			}
-			cv, e4 := ce.eval(em.MakeCall.Args[2])
+			cv, e4 := ce.eval(capExpr)
 			if e4 != nil {
 				return 0, fmt.Errorf("%v; evaluating the capacity argument: %v", err, e4)
 			}
